@@ -1,8 +1,29 @@
 import ShuttleProofs.C03
 import ShuttleProofs.Lemmas.FutureExamples
+import ShuttleProofs.Lemmas.FutureLts
+import ShuttleProofs.Lemmas.FutureProg
+import ShuttleProofs.Lemmas.FutureAsyncExamples
 
 /-!
 # C17 — futures: wakers, the poll loops, `JoinHandle`, `abort`
+
+Property C17: "A spawned future is polled until it completes and is polled again after any wake of its waker that
+happens during or after its latest poll, whichever task issues the wake; a pending future whose waker is never
+invoked is not treated as able to progress, and block_on suspends the calling task while its future is pending and
+then returns its output. Awaiting a JoinHandle yields the task's output exactly once, or Cancelled if and only if an
+abort took effect before completion, in which case the future is dropped (its destructors run) and performs no
+further steps; dropping a JoinHandle detaches the task without cancelling it, and abort is idempotent."
+
+* Part 1 — kernel: `wake`, `sleep_unless_woken`, lost wake-ups, pending tasks, detached leftovers.
+* Part 2 — `namespace Lts`: `JoinHandle` / `Wrapper` / `abort` over the pure transitions (most general client).
+* Part 3 — the poll loops `Fut.taskLoop` and `Fut.blockOnLoop` run by the kernel, and executions of a concrete
+  async program built from the model's wrappers.
+
+Reading of "an abort took effect" (what the code does, `Lts.abort_mid_poll`): the `aborted` flag is read once, at the
+start of `Wrapper::poll`; an `abort()` whose `swap` happens while the inner future is being polled does not cancel
+that poll — if it returns `Ready` the joiner gets `Ok(output)` although `aborted` is set.  In the cancel path the
+destructors of the inner future and the thread-local destructors may reach scheduling points; they do not touch the
+`JoinHandle` state, so `Lts.step … .pollBegin` treats the path as one update of that state.
 
 Part 1 (this section): the kernel side — `Task::wake`, `Task::sleep_unless_woken`, `raw_waker_wake`
 (`KOp.wake`), and how `run_to_completion` treats `Sleeping` tasks.  Model: `ShuttleModel/Kernel.lean`.
@@ -300,5 +321,470 @@ example :
     (execute (exPending true) lastSched .none 0 () 20 20).outcome = .ok ∧
     obsTask (execute (exPending true) lastSched .none 0 () 20 20).st.k 1 = some (.sleeping, false, true) ∧
     (execute (exPending false) lastSched .none 0 () 20 20).outcome = .deadlock [(1, false, true)] := by decide
+
+
+/-! # Part 2 — the future level: `JoinHandle`, `Wrapper`, `abort`, over the pure transitions
+
+`Lts.step tid g op` (`Lemmas/FutureLts.lean`) is the most general client of one spawned future: any interleaving of
+the Wrapper's polls (`pollBegin` / `pollEnd ready`), `JoinHandle::poll`s, `abort`s and handle drops, each step
+applying the model's pure `JoinState.pollJoin` / `publish` / `setAborted`.  `Lts.Reach tid g`: `g` is reachable
+from the state after `spawn`. -/
+
+namespace Lts
+
+/-- **join_result_once**: over any interleaving, at most one `JoinHandle::poll` returns `Ready`; what it returns
+is the value the Wrapper published; `publish` itself (and the thread-local destructors) ran at most once. -/
+theorem join_result_once {tid : Nat} {g : G} (h : Reach tid g) :
+    g.takenCount ≤ 1 ∧ g.pubCount ≤ 1 ∧ g.tlsRun = g.pubCount ∧ g.takenCount ≤ g.pubCount ∧
+      (∀ v, g.taken = some v → g.published = some v) := by
+  have hi := reach_inv h
+  have h2 := hi.pubCount
+  have hle : g.pubCount ≤ 1 := by rw [h2]; split <;> omega
+  cases hr : g.j.result with
+  | some r =>
+    obtain ⟨a, b, c⟩ := hi.slotFull r hr
+    refine ⟨by omega, hle, hi.tls, by omega, ?_⟩
+    intro v hv; rw [c] at hv; cases hv
+  | none =>
+    rcases hi.slotEmpty hr with ⟨a, b⟩ | ⟨a, b, c⟩
+    · exact ⟨by omega, hle, hi.tls, by omega, fun v hv => by rw [← a]; exact hv⟩
+    · refine ⟨by omega, hle, hi.tls, by omega, ?_⟩
+      intro v hv; rw [c] at hv; cases hv
+
+/-- the `Ready` poll consumes the handle (the `.await` drops it): every later attempt to join — by any task —
+finds no handle (`"nohandle"` in the harness; in Rust the moved-out `JoinHandle` cannot be named again) and
+changes nothing. -/
+theorem join_after_ready_nohandle {tid : Nat} {g : G} (h : Reach tid g) (ht : g.takenCount ≥ 1) (cx : Nat) :
+    step tid g (.joinPoll cx) = some (g, .nohandle, []) := by
+  obtain ⟨h1, h2⟩ := (reach_inv h).takenGone ht
+  simp [step, h1, h2]
+
+/-- `JoinHandle::poll` is `result.take()`: a `Ready` poll empties the slot, and polling the same handle again
+(possible in Rust through `&mut JoinHandle`) is not a panic — it registers the waker and is `Pending`; since
+`publish` never runs twice (`join_result_once`) it stays `Pending` for ever. -/
+theorem pollJoin_takes (j : JoinState) (cx cx' : Nat) (r : Bool) (h : j.result = some r) :
+    j.pollJoin cx = (some r, { j with result := none }) ∧
+    ({ j with result := none } : JoinState).pollJoin cx' =
+      (none, { j with result := none, waker := some cx' }) := by
+  simp [JoinState.pollJoin, h]
+
+/-- **cancelled_iff_abort_before_completion**: in every reachable state, the Wrapper published `Err(Cancelled)` iff
+it is done and its last `pollBegin` read `aborted = true`; in that case the flag is set, the inner future was
+dropped un-completed (its destructors ran) and the thread-local destructors ran once; if it published `Ok`, the
+inner future completed and was never dropped.  What a joiner observes is the published value. -/
+theorem cancelled_iff_abort_before_completion {tid : Nat} {g : G} (h : Reach tid g) :
+    (g.published = some false ↔ g.phase = .done ∧ g.cancelSeen = true) ∧
+    (g.published = some true ↔ g.phase = .done ∧ g.cancelSeen = false) ∧
+    (g.published = some false → g.j.aborted = true ∧ g.dropped = true ∧ g.innerCompleted = false ∧ g.tlsRun = 1) ∧
+    (g.published = some true → g.dropped = false ∧ g.innerCompleted = true ∧ g.tlsRun = 1) ∧
+    (∀ v, g.taken = some v → g.published = some v) := by
+  have hi := reach_inv h
+  have hpc := hi.pubCount
+  have hcases : ∀ v, g.published = some v → g.phase = .done ∧ v = !g.cancelSeen ∧ g.tlsRun = 1 := by
+    intro v hv
+    refine ⟨hi.pubDone.mpr (by simp [hv]), hi.value v hv, ?_⟩
+    rw [hi.tls, hpc, hv]; rfl
+  have hdone : g.phase = .done → g.published = some (!g.cancelSeen) := by
+    intro hd
+    cases hp : g.published with
+    | none => have := hi.pubDone.mp hd; rw [hp] at this; cases this
+    | some v => rw [hi.value v hp]
+  refine ⟨⟨?_, ?_⟩, ⟨?_, ?_⟩, ?_, ?_, (join_result_once h).2.2.2.2⟩
+  · intro hv
+    obtain ⟨a, b, _⟩ := hcases false hv
+    exact ⟨a, by cases hc : g.cancelSeen <;> rw [hc] at b <;> first | rfl | cases b⟩
+  · rintro ⟨a, b⟩
+    rw [hdone a, b]; rfl
+  · intro hv
+    obtain ⟨a, b, _⟩ := hcases true hv
+    exact ⟨a, by cases hc : g.cancelSeen <;> rw [hc] at b <;> first | rfl | cases b⟩
+  · rintro ⟨a, b⟩
+    rw [hdone a, b]; rfl
+  · intro hv
+    obtain ⟨a, b, c⟩ := hcases false hv
+    have hcs : g.cancelSeen = true := by cases hc : g.cancelSeen <;> rw [hc] at b <;> first | rfl | cases b
+    obtain ⟨d, e⟩ := hi.cancelFx a hcs
+    exact ⟨hi.seenAborted hcs, d, e, c⟩
+  · intro hv
+    obtain ⟨a, b, c⟩ := hcases true hv
+    have hcs : g.cancelSeen = false := by cases hc : g.cancelSeen <;> rw [hc] at b <;> first | rfl | cases b
+    obtain ⟨d, e⟩ := hi.okFx a hcs
+    exact ⟨d, e, c⟩
+
+/-- the Wrapper checks the flag BEFORE polling the inner future: with the flag set, `pollBegin` does not poll
+(`innerPolls` unchanged) — it drops the inner future, runs the thread-local destructors, publishes
+`Err(Cancelled)` (waking the registered joiner, if any) and is `Ready`. -/
+theorem pollBegin_aborted (tid : Nat) (g : G) (hp : g.phase = .idle) (ha : g.j.aborted = true) :
+    ∃ g', step tid g .pollBegin = some (g', .began true,
+        match g.j.waker with | some t => [Eff.wake t] | none => []) ∧
+      g'.innerPolls = g.innerPolls ∧ g'.dropped = true ∧ g'.tlsRun = g.tlsRun + 1 ∧ g'.phase = .done ∧
+      g'.published = some false ∧ g'.j.result = some false ∧ g'.j.waker = none := by
+  obtain ⟨j, phase, cancelSeen, innerPolls, innerCompleted, dropped, tlsRun, published, pubCount, taken,
+    takenCount, joiner, detached⟩ := g
+  obtain ⟨jt, jr, jw, ja, jh, js⟩ := j
+  simp only at hp ha
+  subst hp ha
+  cases jw <;> exact ⟨_, rfl, rfl, rfl, rfl, rfl, rfl, rfl, rfl⟩
+
+/-- with the flag down, `pollBegin` enters the poll of the inner future -/
+theorem pollBegin_not_aborted (tid : Nat) (g : G) (hp : g.phase = .idle) (ha : g.j.aborted = false) :
+    step tid g .pollBegin =
+      some ({ g with phase := .midPoll, cancelSeen := false, innerPolls := g.innerPolls + 1 }, .began false, []) := by
+  simp [step, hp, ha]
+
+/-- an abort that arrives while the inner future is mid-poll does not cancel that poll: if the poll reaches
+`Ready` the Wrapper publishes `Ok` although `aborted` is set (the joiner gets the output, not `Cancelled`); if it
+returns `Pending`, the next `pollBegin` takes the cancel path. -/
+theorem abort_mid_poll (tid : Nat) (g : G) (hp : g.phase = .midPoll) :
+    ∃ g1 effs, step tid g .abort = some (g1, .unit, effs) ∧ g1.j.aborted = true ∧ g1.phase = .midPoll ∧
+      (∃ g2 effs2, step tid g1 (.pollEnd true) = some (g2, .polled true, effs2) ∧
+        g2.published = some true ∧ g2.j.result = some true ∧ g2.j.aborted = true) ∧
+      (∃ g2 g3 effs3, step tid g1 (.pollEnd false) = some (g2, .polled false, []) ∧
+        step tid g2 .pollBegin = some (g3, .began true, effs3) ∧ g3.published = some false ∧
+        g3.innerPolls = g.innerPolls) := by
+  obtain ⟨j, phase, cancelSeen, innerPolls, innerCompleted, dropped, tlsRun, published, pubCount, taken,
+    takenCount, joiner, detached⟩ := g
+  obtain ⟨jt, jr, jw, ja, jh, js⟩ := j
+  simp only at hp
+  subst hp
+  cases ja <;>
+    exact ⟨_, _, rfl, rfl, rfl, ⟨_, _, rfl, rfl, rfl, rfl⟩, ⟨_, _, _, rfl, rfl, rfl, rfl⟩⟩
+
+/-- once the Wrapper is done — completed or cancelled — it performs no further step: neither `pollBegin` nor
+`pollEnd` can happen, and no other operation changes what it did (`innerPolls`, `dropped`, `tlsRun`, the
+published value). -/
+theorem done_no_further_steps {tid : Nat} {g g' : G} {op : FOp} {o : Out} {effs : List Eff}
+    (hd : g.phase = .done) :
+    step tid g .pollBegin = none ∧ (∀ r, step tid g (.pollEnd r) = none) ∧
+    (step tid g op = some (g', o, effs) →
+      g'.phase = .done ∧ g'.innerPolls = g.innerPolls ∧ g'.dropped = g.dropped ∧ g'.tlsRun = g.tlsRun ∧
+        g'.published = g.published ∧ g'.innerCompleted = g.innerCompleted) := by
+  refine ⟨by simp [step, hd], fun r => by simp [step, hd], ?_⟩
+  intro hs
+  cases op with
+  | pollBegin => simp [step, hd] at hs
+  | pollEnd r => simp [step, hd] at hs
+  | joinPoll cx =>
+    simp only [step] at hs
+    split at hs
+    · split at hs <;>
+        (simp only [Option.some.injEq, Prod.mk.injEq] at hs; obtain ⟨rfl, _, _⟩ := hs;
+         exact ⟨hd, rfl, rfl, rfl, rfl, rfl⟩)
+    · simp only [Option.some.injEq, Prod.mk.injEq] at hs
+      obtain ⟨rfl, _, _⟩ := hs
+      exact ⟨hd, rfl, rfl, rfl, rfl, rfl⟩
+  | abort =>
+    simp only [step, Option.some.injEq, Prod.mk.injEq] at hs
+    obtain ⟨rfl, _, _⟩ := hs
+    exact ⟨hd, rfl, rfl, rfl, rfl, rfl⟩
+  | dropHandle =>
+    simp only [step] at hs
+    split at hs <;>
+      (simp only [Option.some.injEq, Prod.mk.injEq] at hs; obtain ⟨rfl, _, _⟩ := hs;
+       exact ⟨hd, rfl, rfl, rfl, rfl, rfl⟩)
+  | dropJoiner cx =>
+    simp only [step] at hs
+    split at hs
+    · simp only [Option.some.injEq, Prod.mk.injEq] at hs
+      obtain ⟨rfl, _, _⟩ := hs
+      exact ⟨hd, rfl, rfl, rfl, rfl, rfl⟩
+    · cases hs
+
+/-- **abort_idempotent**: the first `abort` sets the flag and wakes the task (`Task::abort` = `wake` unless
+finished); every further `abort` — through the `JoinHandle` or any clone of the `AbortHandle` — changes nothing
+and wakes nobody (`if aborted.swap(true) { return }`). -/
+theorem abort_idempotent (tid : Nat) (g : G) :
+    ∃ g1, step tid g .abort = some (g1, .unit, if g.j.aborted then [] else [Eff.wake tid]) ∧
+      g1.j.aborted = true ∧ step tid g1 .abort = some (g1, .unit, []) := by
+  obtain ⟨j, phase, cancelSeen, innerPolls, innerCompleted, dropped, tlsRun, published, pubCount, taken,
+    takenCount, joiner, detached⟩ := g
+  obtain ⟨jt, jr, jw, ja, jh, js⟩ := j
+  cases ja <;> exact ⟨_, rfl, rfl, rfl⟩
+
+/-- **abort_finished_is_noop**: aborting a future whose Wrapper is done changes nothing but the flag: the
+published result, the result slot (what a later join returns) and everything the Wrapper did stay as they are; the
+only effect is a `wake` of the future's task, which the kernel ignores for a finished task
+(`finished_task_wake_is_noop`). -/
+theorem abort_finished_is_noop {tid : Nat} {g : G} (hd : g.phase = .done) :
+    ∃ g1 effs, step tid g .abort = some (g1, .unit, effs) ∧ (∀ e ∈ effs, e = Eff.wake tid) ∧
+      g1 = { g with j := { g.j with aborted := true } } ∧ g1.j.result = g.j.result ∧
+      g1.published = g.published ∧ g1.phase = .done ∧ step tid g1 .pollBegin = none := by
+  obtain ⟨j, phase, cancelSeen, innerPolls, innerCompleted, dropped, tlsRun, published, pubCount, taken,
+    takenCount, joiner, detached⟩ := g
+  obtain ⟨jt, jr, jw, ja, jh, js⟩ := j
+  simp only at hd
+  subst hd
+  cases ja
+  · exact ⟨_, _, rfl, fun e he => by simpa [JoinState.setAborted] using he, rfl, rfl, rfl, rfl, rfl⟩
+  · exact ⟨_, _, rfl, fun e he => by simp [JoinState.setAborted] at he, rfl, rfl, rfl, rfl, rfl⟩
+
+/-- **drop_detaches_not_cancels**: dropping the `JoinHandle` detaches the task and does nothing else: the
+`aborted` flag, the Wrapper's phase and the result slot are untouched — the Wrapper is polled exactly as before. -/
+theorem drop_detaches_not_cancels (tid : Nat) (g : G) (hh : g.j.handle = true) :
+    step tid g .dropHandle = some ({ g with j := { g.j with handle := false }, detached := true }, .unit, []) ∧
+    ∀ g', g' = { g with j := { g.j with handle := false }, detached := true } →
+      g'.j.aborted = g.j.aborted ∧ g'.phase = g.phase ∧ g'.j.result = g.j.result ∧
+      (step tid g' .pollBegin).isSome = (step tid g .pollBegin).isSome ∧
+      (∀ r, (step tid g' (.pollEnd r)).isSome = (step tid g (.pollEnd r)).isSome) := by
+  refine ⟨by simp [step, hh], ?_⟩
+  rintro g' rfl
+  refine ⟨rfl, rfl, rfl, ?_, ?_⟩
+  · simp only [step]
+    split
+    · rfl
+    · cases g.j.aborted <;> rfl
+  · intro r
+    simp only [step]
+    split
+    · rfl
+    · cases r <;> rfl
+
+/-- only `abort` sets the flag; hence a future nobody aborts is never cancelled, whatever happens to its handle -/
+theorem flag_only_by_abort {tid : Nat} {g g' : G} {op : FOp} {o : Out} {effs : List Eff}
+    (hs : step tid g op = some (g', o, effs)) (hop : op ≠ .abort) : g'.j.aborted = g.j.aborted := by
+  cases op with
+  | abort => exact absurd rfl hop
+  | pollBegin =>
+    simp only [step] at hs
+    split at hs
+    · cases hs
+    · split at hs <;>
+        (simp only [Option.some.injEq, Prod.mk.injEq] at hs; obtain ⟨rfl, _, _⟩ := hs)
+      · exact (publish_result g.j false).2.1
+      · rfl
+  | pollEnd r =>
+    simp only [step] at hs
+    split at hs
+    · cases hs
+    · split at hs <;>
+        (simp only [Option.some.injEq, Prod.mk.injEq] at hs; obtain ⟨rfl, _, _⟩ := hs)
+      · exact (publish_result g.j true).2.1
+      · rfl
+  | joinPoll cx =>
+    simp only [step] at hs
+    split at hs
+    · split at hs
+      · rename_i v j' hp
+        simp only [Option.some.injEq, Prod.mk.injEq] at hs
+        obtain ⟨rfl, _, _⟩ := hs
+        exact (pollJoin_some hp).2.2.1
+      · rename_i j' hp
+        simp only [Option.some.injEq, Prod.mk.injEq] at hs
+        obtain ⟨rfl, _, _⟩ := hs
+        exact (pollJoin_none hp).2.2.1
+    · simp only [Option.some.injEq, Prod.mk.injEq] at hs
+      obtain ⟨rfl, _, _⟩ := hs
+      rfl
+  | dropHandle =>
+    simp only [step] at hs
+    split at hs <;>
+      (simp only [Option.some.injEq, Prod.mk.injEq] at hs; obtain ⟨rfl, _, _⟩ := hs; rfl)
+  | dropJoiner cx =>
+    simp only [step] at hs
+    split at hs
+    · simp only [Option.some.injEq, Prod.mk.injEq] at hs
+      obtain ⟨rfl, _, _⟩ := hs
+      rfl
+    · cases hs
+
+theorem cancelled_only_if_aborted {tid : Nat} {g : G} (h : Reach tid g) (hc : g.taken = some false) :
+    g.j.aborted = true := by
+  obtain ⟨_, _, h3, _, h5⟩ := cancelled_iff_abort_before_completion h
+  exact (h3 (h5 false hc)).1
+
+/-! ### non-vacuity: concrete interleavings -/
+
+/-- abort before the first poll: the joiner gets `Cancelled`, the inner future is never polled, it is dropped,
+the thread-local destructors run once; a second join finds no handle; a second abort wakes nobody -/
+example :
+    (run 1 (init 1) [.joinPoll 0, .abort, .abort, .pollBegin, .joinPoll 0, .joinPoll 0, .pollBegin]).2 =
+      [.joined none, .unit, .unit, .began true, .joined (some false), .nohandle] ∧
+    (let g := (run 1 (init 1) [.joinPoll 0, .abort, .abort, .pollBegin, .joinPoll 0, .joinPoll 0]).1
+     (g.innerPolls, g.dropped, g.tlsRun, g.takenCount, g.taken, g.detached) =
+       (0, true, 1, 1, some false, true)) ∧
+    (step 1 (init 1) .abort).map (·.2.2) = some [Eff.wake 1] ∧
+    (step 1 (run 1 (init 1) [.abort]).1 .abort).map (·.2.2) = some [] := by decide
+
+/-- abort while the inner future is mid-poll, the poll reaches `Ready`: the joiner gets the output (`Ok`) although
+the flag is set; abort after completion changes nothing -/
+example :
+    (run 1 (init 1) [.pollBegin, .abort, .pollEnd true, .abort, .joinPoll 0]).2 =
+      [.began false, .unit, .polled true, .unit, .joined (some true)] ∧
+    (let g := (run 1 (init 1) [.pollBegin, .abort, .pollEnd true, .abort, .joinPoll 0]).1
+     (g.j.aborted, g.innerPolls, g.dropped, g.innerCompleted, g.tlsRun, g.taken) =
+       (true, 1, false, true, 1, some true)) := by decide
+
+/-- abort mid-poll, the poll returns `Pending`: the next poll of the Wrapper cancels without polling the inner
+future again; dropping the handle instead of aborting never cancels -/
+example :
+    (run 1 (init 1) [.pollBegin, .abort, .pollEnd false, .pollBegin, .pollBegin]).2 =
+      [.began false, .unit, .polled false, .began true] ∧
+    (run 1 (init 1) [.pollBegin, .abort, .pollEnd false, .pollBegin]).1.innerPolls = 1 ∧
+    (run 1 (init 1) [.dropHandle, .pollBegin, .pollEnd false, .pollBegin, .pollEnd true, .joinPoll 0]).2 =
+      [.unit, .began false, .polled false, .began false, .polled true, .nohandle] ∧
+    (let g := (run 1 (init 1) [.dropHandle, .pollBegin, .pollEnd false, .pollBegin, .pollEnd true]).1
+     (g.detached, g.j.aborted, g.published, g.innerPolls)) = (true, false, some true, 2) := by decide
+
+example : Reach 1 (run 1 (init 1) [.joinPoll 0, .abort, .pollBegin, .joinPoll 0]).1 :=
+  run_reach .init _
+
+end Lts
+
+
+/-! # Part 3 — the poll loops `Fut.taskLoop` (`Task::from_future` around `Wrapper::poll`) and `Fut.blockOnLoop`
+(`future::block_on`), run by the kernel
+
+A poll is described by what running it does: `AtomicPoll S me st p c st1 r` — run by task `me` from state `st`, the
+program `p` executes `c` requests without reaching a scheduling point or panicking and returns `r` in state `st1`
+(stated for every continuation).  The theorems are for every scheduler, every kernel state, every inner future. -/
+
+/-- **task_loop_polls_until_ready**, the shape of the loop: read the `aborted` flag; set ⇒ drop the inner future
+and `finish(Err(Cancelled))`; else poll; `Ready` ⇒ `finish(Ok)` and return; `Pending` ⇒ `sleep_unless_woken();
+switch()` and poll again. -/
+theorem task_loop_polls_until_ready {U : Type} {τ : Type} (F : Lens U FutHeap) (b : Nat)
+    (poll : τ → Prog U (Option τ)) (dropFut : τ → Prog U Unit) (tls : Prog U Unit) (fuel : Nat) (s : τ) :
+    Fut.taskLoop F b poll dropFut tls (fuel + 1) s =
+      Prog.bind (K.getL (Fut.joinL F b)) fun j =>
+        if j.aborted = true then Prog.bind (dropFut s) fun _ => Fut.finish F b false tls
+        else Prog.bind (poll s) fun r =>
+          match r with
+          | none => Fut.finish F b true tls
+          | some s' =>
+            Prog.bind K.sleepUnlessWoken fun _ => Prog.bind K.switch fun _ =>
+              Fut.taskLoop F b poll dropFut tls fuel s' :=
+  taskLoop_succ F b poll dropFut tls fuel s
+
+/-- with the flag set, the kernel runs: the destructors of the inner future, then `Wrapper::finish(Err(Cancelled))`
+(thread-local destructors, `publish false`, wake the joiner) — and nothing else: the inner future's `poll` does
+not occur in what remains of the task (the right-hand side is the same for every `poll`). -/
+theorem task_loop_aborted_never_polls {τ : Type} (S : Scheduler σ) (me fuel : Nat) (st : ExecState P σ)
+    (F : Lens P.U FutHeap) (b : Nat) (poll : τ → Prog P.U (Option τ)) (dropFut : τ → Prog P.U Unit)
+    (tls : Prog P.U Unit) (n : Nat) (s : τ) (ha : ((Fut.joinL F b).get st.u).aborted = true) :
+    runSegment S me (fuel + 1) st (Fut.taskLoop F b poll dropFut tls (n + 1) s) =
+      runSegment S me fuel st (Prog.bind (dropFut s) fun _ => Fut.finish F b false tls) := by
+  rw [taskLoop_succ, runSegment_getL]
+  simp only [ha, if_true]
+
+/-- flag down, the poll returns `Ready`: the task goes on with `Wrapper::finish(Ok)` and then returns (finishes) -/
+theorem task_loop_ready_finishes {τ : Type} (S : Scheduler σ) (me : Nat) (st st1 : ExecState P σ)
+    (F : Lens P.U FutHeap) (b : Nat) (poll : τ → Prog P.U (Option τ)) (dropFut : τ → Prog P.U Unit)
+    (tls : Prog P.U Unit) (n c : Nat) (s : τ) (ha : ((Fut.joinL F b).get st.u).aborted = false)
+    (hp : AtomicPoll S me st (poll s) c st1 none) (fuel : Nat) :
+    runSegment S me (fuel + c + 1) st (Fut.taskLoop F b poll dropFut tls (n + 1) s) =
+      runSegment S me fuel st1 (Fut.finish F b true tls) := by
+  rw [taskLoop_succ, runSegment_getL]
+  simp only [ha, Bool.false_eq_true, if_false]
+  rw [hp fuel]
+
+/-- flag down, the poll returns `Pending`: the task executes `sleep_unless_woken()` — it goes to sleep iff its
+waker was not invoked during the poll — and stops at `switch()`; when it is scheduled again it polls again (its
+continuation is the loop, resumed from the pending state). -/
+theorem task_loop_pending_suspends {τ : Type} (S : Scheduler σ) (me : Nat) (st st1 : ExecState P σ)
+    (F : Lens P.U FutHeap) (b : Nat) (poll : τ → Prog P.U (Option τ)) (dropFut : τ → Prog P.U Unit)
+    (tls : Prog P.U Unit) (n c : Nat) (s s' : τ) (ha : ((Fut.joinL F b).get st.u).aborted = false)
+    (hp : AtomicPoll S me st (poll s) c st1 (some s')) (tk : Task) (hk : st1.k.tasks[me]? = some tk)
+    (hf : tk.state ≠ .finished) (fuel : Nat) :
+    runSegment S me (fuel + 2 + c + 1) st (Fut.taskLoop F b poll dropFut tls (n + 1) s) =
+      .atSwitch (parkedAt st1 me tk (Fut.taskLoop F b poll dropFut tls n s')) := by
+  rw [taskLoop_succ, runSegment_getL]
+  simp only [ha, Bool.false_eq_true, if_false]
+  rw [hp (fuel + 2)]
+  show runSegment S me (fuel + 1 + 1) st1 (.op .sleepUnlessWoken fun _ => .op .switch fun _ =>
+    Fut.taskLoop F b poll dropFut tls n s') = _
+  rw [sleepUnlessWoken_request S me (fuel + 1) st1 tk _ hk hf, runSegment]
+  rfl
+
+/-- **block_on_returns_output_after_ready**: when the poll of its future is `Ready(v)`, `block_on` returns `v` to
+its caller at once — no `sleep_unless_woken`, no scheduling point. -/
+theorem block_on_returns_output_after_ready (S : Scheduler σ) (me : Nat) (st st1 : ExecState P σ)
+    (poll : Stage → Prog P.U LeafRes) (n c : Nat) (s : Stage) (v : String)
+    (hp : AtomicPoll S me st (poll s) c st1 (.ready v)) (kont : String → Prog P.U Unit) (fuel : Nat) :
+    runSegment S me (fuel + c) st (Prog.bind (Fut.blockOnLoop poll (n + 1) s) kont) =
+      runSegment S me fuel st1 (kont v) := by
+  rw [blockOnLoop_succ, Prog.bind_assoc, hp fuel]
+  rfl
+
+/-- while its future is `Pending`, `block_on` suspends the calling task: `sleep_unless_woken()` (asleep unless the
+waker — the caller's own — was invoked during the poll), then `switch()`; when the caller runs again, it polls
+again, and only a `Ready` poll makes `block_on` return (previous theorem). -/
+theorem block_on_suspends_while_pending (S : Scheduler σ) (me : Nat) (st st1 : ExecState P σ)
+    (poll : Stage → Prog P.U LeafRes) (n c : Nat) (s s' : Stage)
+    (hp : AtomicPoll S me st (poll s) c st1 (.pending s')) (tk : Task) (hk : st1.k.tasks[me]? = some tk)
+    (hf : tk.state ≠ .finished) (kont : String → Prog P.U Unit) (fuel : Nat) :
+    runSegment S me (fuel + 2 + c) st (Prog.bind (Fut.blockOnLoop poll (n + 1) s) kont) =
+      .atSwitch (parkedAt st1 me tk (Prog.bind (Fut.blockOnLoop poll n s') kont)) := by
+  rw [blockOnLoop_succ, Prog.bind_assoc, hp (fuel + 2)]
+  show runSegment S me (fuel + 1 + 1) st1 (.op .sleepUnlessWoken fun _ => .op .switch fun _ =>
+    Prog.bind (Fut.blockOnLoop poll n s') kont) = _
+  rw [sleepUnlessWoken_request S me (fuel + 1) st1 tk _ hk hf, runSegment]
+  rfl
+
+/-- `JoinHandle::abort` / `AbortHandle::abort`: a scheduling point first, then exactly `JoinState.setAborted`
+(the `swap`, and the `wake` of the task unless the flag was already set) -/
+theorem abort_eq {U : Type} (F : Lens U FutHeap) (b : Nat) :
+    Fut.abort F b =
+      Prog.bind (K.getL (Fut.joinL F b)) fun j =>
+        match j.tid with
+        | none => Prog.pure "nohandle"
+        | some tid => Prog.bind K.switch fun _ => Prog.bind (K.getL (Fut.joinL F b)) fun j =>
+            Prog.bind (K.setL (Fut.joinL F b) (j.setAborted tid).1) fun _ =>
+              Prog.bind (runEffs (j.setAborted tid).2) fun _ => Prog.pure "ok" := by
+  rfl
+
+/-- `Wrapper::finish` = thread-local destructors, then exactly `JoinState.publish` and its wake -/
+theorem finish_is_publish {U : Type} (F : Lens U FutHeap) (b : Nat) (ok : Bool) (tls : Prog U Unit) :
+    Fut.finish F b ok tls =
+      Prog.bind tls fun _ => Prog.bind (K.getL (Fut.joinL F b)) fun j =>
+        Prog.bind (K.setL (Fut.joinL F b) (j.publish ok).1) fun _ => runEffs (j.publish ok).2 :=
+  finish_eq F b ok tls
+
+/-! ### non-vacuity -/
+
+/-- `AtomicPoll` is satisfiable: a poll that reads and writes the shared state and wakes its own task -/
+example (S : Scheduler σ) (st : ExecState (exAsync 1 false 0) σ) (tk : Task) (hk : st.k.tasks[1]? = some tk)
+    (hc : st.k.current = .some 1) (hf : tk.state ≠ .finished) (hs : tk.state ≠ .sleeping) :
+    AtomicPoll S 1 st (exPoll false 1) 4
+      { st with u := { (st.u : AU) with polls := (st.u : AU).polls + 1 },
+                k := st.k.setTask 1 { tk with woken := true } } (some 0) := by
+  intro fuel k
+  have h1 : (st.k.current == Cur.stopped || st.k.current == Cur.finished) = false := by simp [hc]
+  simp [exPoll, bump, K.getU, K.setU, K.me, K.wake, Prog.lift, Bind.bind, Prog.bind, runSegment, Pure.pure,
+    h1, Kernel.getTask?, hk, Task.finished, hf, Kernel.modTask, Task.wake_not_sleeping tk hs]
+
+/-- spawn + `block_on(join handle)`: the future is polled until `Ready` (twice: `Pending` with a self-wake, then
+`Ready`), the thread-local destructors run once, `block_on` returns `Ok`, the handle is consumed (task detached),
+the slot is empty -/
+example : (execute (exAsync 1 false 0) firstSched .none 0 () 50 200).outcome = .ok ∧
+    obsAsync (execute (exAsync 1 false 0) firstSched .none 0 () 50 200) =
+      ([2, 0, 1, 1], none, false, [(.finished, false), (.finished, true)]) := by decide
+
+/-- `abort` before the first poll, then `block_on(join handle)`, then `abort` again: the inner future is never
+polled, it is dropped once, the thread-local destructors run once, the join returns `Err(Cancelled)` -/
+example : (execute (exAsync 1 false 1) firstSched .none 0 () 50 200).outcome = .ok ∧
+    obsAsync (execute (exAsync 1 false 1) firstSched .none 0 () 50 200) =
+      ([0, 1, 1, 2], none, true, [(.finished, false), (.finished, true)]) := by decide
+
+/-- `abort` takes effect while the inner future is mid-poll (the poll contains a scheduling point) and the poll
+reaches `Ready`: not cancelled — the join returns `Ok` although the flag is set;  if instead that poll returns
+`Pending`, the next poll of the Wrapper cancels (1 poll, dropped once, `Err(Cancelled)`) -/
+example :
+    obsAsync (execute (exAsync 0 true 1) listSched .none 0 [0, 1, 0] 50 200) =
+      ([1, 0, 1, 1], none, true, [(.finished, false), (.finished, true)]) ∧
+    obsAsync (execute (exAsync 1 true 1) listSched .none 0 [0, 1, 0] 50 200) =
+      ([1, 1, 1, 2], none, true, [(.finished, false), (.finished, true)]) := by decide
+
+/-- dropping the handle detaches and does not cancel: if main ends first the run is `ok` with the future never
+polled; if the scheduler runs the detached future, it is polled to completion (2 polls, no drop, result
+published `Ok`, nobody takes it);  a second join after a `Ready` one finds no handle (`joined = 1 + 10`) -/
+example :
+    (execute (exAsync 1 false 2) firstSched .none 0 () 50 200).outcome = .ok ∧
+    obsAsync (execute (exAsync 1 false 2) firstSched .none 0 () 50 200) =
+      ([0, 0, 0, 0], none, false, [(.finished, false), (.runnable, true)]) := by decide
+
+example :
+    obsAsync (execute (exAsync 1 false 4) lastSched .none 0 () 50 200) =
+      ([2, 0, 1, 0], some true, false, [(.finished, false), (.finished, true)]) ∧
+    obsAsync (execute (exAsync 0 false 3) firstSched .none 0 () 50 200) =
+      ([1, 0, 1, 11], none, false, [(.finished, false), (.finished, true)]) := by decide
 
 end ShuttleProofs.C17
